@@ -209,12 +209,29 @@ def gen_workload(tape, *, max_funcs=5, max_size=3, allow_gen=True, allow_tuple=T
                 d["shadow_default"] = tape.pick([-1, -1, 1], "shadow-len")  # default is shorter / longer than the input
     w = {"indices": idx_size, "inputs": inputs, "functions": funcs,
          "internal_via": tape.pick(["pipefunc", "map-arg", "both"], "internal-via")}
+    if tape.coin(0.06, "long-names"):
+        # descriptive output names, longer than any length somebody might have thought "long enough" for a file name
+        ren = {o: o + "_" + "of_the_measurement_series" * 3 for fd in funcs for o in fd["outputs"]}
+        _rename_values(w, ren)
     if tape.coin(0.07, "greek-axes"):
         _rename_axes(w, dict(zip(IDX_NAMES, GREEK)))  # index names are identifiers: non-ASCII letters are fine
     return w
 
 
 GREEK = ["θ", "φ", "ψ", "λ", "μ", "ν", "ξ", "ρ", "σ", "τ"]
+
+
+def _rename_values(w, ren):
+    import re
+
+    pat = re.compile(r"(?<![\w.])(" + "|".join(map(re.escape, sorted(ren, key=len, reverse=True))) + r")(?![\w.])")
+    for fd in w["functions"]:
+        fd["outputs"] = [ren.get(o, o) for o in fd["outputs"]]
+        fd["params"] = [ren.get(p_, p_) for p_ in fd["params"]]
+        if fd.get("renamed"):
+            fd["renamed"] = [ren.get(p_, p_) for p_ in fd["renamed"]]
+        if fd.get("mapspec"):
+            fd["mapspec"] = pat.sub(lambda m: ren[m.group(1)], fd["mapspec"])
 
 
 def _rename_axes(w, ren):
